@@ -17,32 +17,42 @@ TECHNIQUE = ("Coq: two-cursor differ (stack-of-frames cursors with advance, skip
              "cursor semantics lemma (advance drops exactly the current item at any depth), skip soundness under addr_inj")
 LEVEL_TEXT = ("Proof (F/P): tree_diff_spec / diff_maps_spec — for every pair of well-formed trees of any depths and shapes (related or not), under "
               "addr_inj (equal child address => equal subtree), the differ as implemented (two stack cursors, advance, skipCommon / skipCommonParents "
-              "with parentsAreNew, past-end stop cursors, either value of considerAllRowsModified, makeDiffCallBack filter) terminates within the "
-              "model's own fuel and returns exactly the declarative diff of the two flattenings; the declarative diff is proved ascending with each "
-              "key at most once (list_diff_sorted). Partial: bounded key ranges (DiffMapsKeyRange / RangeDiffMaps with start/stop keys) are proved "
-              "only for the unbounded range; for bounded ranges the same loop lemmas apply but the start/stop cursor lemmas are missing, so those "
-              "rest on the correspondence (model = implementation = declarative range diff on every generated case).")
+              "with parentsAreNew, past-end stop cursors, either value of considerAllRowsModified) terminates within the model's own fuel and returns "
+              "exactly the byte-level declarative diff of the two flattenings; composed with makeDiffCallBack (modelled explicitly: a Modified whose "
+              "values decode to the same row is dropped) it returns, for every decoding function, the declarative diff on decoded rows "
+              "(list_diff_d: the same row stored canonically on one side and with a kept trailing NULL on the other is not a change). The "
+              "declarative diff is proved ascending with each key at most once. Partial: bounded key ranges (DiffMapsKeyRange / RangeDiffMaps with "
+              "start/stop keys) are proved only for the unbounded range; bounded ranges rest on the correspondence, which probes all three entry "
+              "points on maps holding hand-crafted non-canonical value tuples, with shared and with separately allocated (Equal) descriptors.")
 LEVEL_NOTE = ("Trusted: Coq kernel, Go harness + Python glue. Missing for range_diff_spec: cursor_at_search satisfies the cursor invariant and has "
               "exactly the entries >= the bound ahead of it; compareCursors against a stop cursor inside the tree orders cursors like the number of "
               "entries ahead. list_diff_complete (membership <-> key-wise change) is proved for the one-sided cases only. Modelled, not verified: "
               "tuple comparator, node store, canonical-tuple filter (values are single fixed-width ints).")
-THEOREMS = ["tree_diff_spec", "diff_maps_spec", "list_diff_sorted", "list_diff_refl", "advance_cinv", "cursor_at_start_cinv", "skip_ok", "skip_sound",
+THEOREMS = ["tree_diff_spec", "diff_maps_spec", "canonical_filter_g", "list_diff_d_id", "list_diff_sorted", "list_diff_refl", "advance_cinv", "cursor_at_start_cinv", "skip_ok", "skip_sound",
             "node_eqb_sound", "key_range_diff_unbounded_partial"]
-RULE = ("pairs of maps of 0..400 entries with trees of 1..3 levels: B derived from A by 0..all-keys edits through the mutable map (shared chunks), or "
+RULE = ("value rows in two byte encodings (canonical / trailing NULL kept, hand-crafted) on either or both sides; second map with shared or separately "
+        "allocated Equal descriptors; pairs of maps of 0..400 entries with trees of 1..3 levels: B derived from A by 0..all-keys edits through the mutable map (shared chunks), or "
         "built independently (unrelated, different heights); key ranges unbounded / inside shared subtrees / empty / inverted / past the end; "
         "non-trivial = at least one entry in either map; distinct by case content")
-ASSUMPTIONS = ["keys and values are fixed-width integer tuples (byte equality = value equality)",
+ASSUMPTIONS = ["keys are fixed-width integer tuples; a value row has two byte encodings (canonical, and with the trailing NULL field kept)",
                "RangeDiffMaps is probed with ranges on the first key column"]
 REQUIRED_TAGS = ["related", "unrelated", "no-change", "height-diff", "multi-level", "added", "removed", "modified", "range-inverted", "range-open",
-                 "single-edit-deep"]
+                 "single-edit-deep", "noncanonical-value-one-side", "separate-descriptors", "noncanonical-and-separate-descriptors"]
 
 W = 16
 
 
+# A stored value is exchanged as the code 2*row + nc: nc = 1 is the same row in the non-canonical tuple encoding (trailing NULL
+# field kept), hand-crafted by the harness — TupleBuilder never produces it, legacy data can contain it.
 def gen_init(rng, n, space):
     n = min(n, space)
     ks = sorted(rng.sample(range(space), n))
-    return [[k, rng.randrange(1000)] for k in ks]
+    return [[k, 2 * rng.randrange(1000)] for k in ks]
+
+
+def sprinkle_nc(rng, l, p):
+    """the same rows, some of them stored non-canonically"""
+    return [[k, (v | 1) if rng.random() < p else v] for k, v in l]
 
 
 def apply_edits(a, edits):
@@ -76,24 +86,41 @@ def gen_case(rng, big):
     space = max(4 * W, 3 * n + W)
     a = gen_init(rng, n, space)
     rel = rng.random() < 0.7
+    ncmode = rng.choice(["none", "none", "b", "b", "a", "both"])     # which side holds non-canonical encodings
+    if ncmode in ("a", "both"):
+        a = sprinkle_nc(rng, a, 0.3)
     if rel:
         m = rng.choice([0, 1, 1, 2, 5, 20, max(1, n)])
         edits = []
         ks = [k for k, _ in a]
+        cur = dict((k, v) for k, v in a)
         for _ in range(m):
             x = rng.random()
             if x < 0.35 and ks:
-                edits.append({"k": rng.choice(ks), "v": rng.randrange(1000), "del": False})
+                edits.append({"k": rng.choice(ks), "v": 2 * rng.randrange(1000) + (1 if ncmode in ("b", "both") and rng.random() < 0.3 else 0), "del": False})
             elif x < 0.65 and ks:
                 edits.append({"k": rng.choice(ks), "v": 0, "del": True})
             else:
-                edits.append({"k": rng.randrange(space + W), "v": rng.randrange(1000), "del": False})
+                edits.append({"k": rng.randrange(space + W), "v": 2 * rng.randrange(1000), "del": False})
+        if ncmode in ("b", "both") and ks:
+            # re-store some unchanged rows in the other encoding: same row, different bytes
+            for k in rng.sample(ks, min(len(ks), rng.choice([1, 2, 5]))):
+                edits.append({"k": k, "v": cur[k] ^ 1, "del": False})
         b = apply_edits(a, edits)
         c = {"kw": kw, "a": a, "b": b, "edits": edits, "rel": True}
     else:
-        nb = rng.choice([0, 2, n, max(1, n // 8), min(400, n * 4 + 1)])
-        b = gen_init(rng, nb, space)
+        nb = rng.choice([0, 2, n, n, max(1, n // 8), min(400, n * 4 + 1)])
+        if nb == n and ncmode != "none":
+            b = [[k, v ^ 1 if rng.random() < 0.3 else v] for k, v in a]      # same rows, some re-encoded, built independently
+            if rng.random() < 0.5 and b:
+                i = rng.randrange(len(b))
+                b[i] = [b[i][0], b[i][1] + 2]                                # and one real change
+        else:
+            b = gen_init(rng, nb, space)
+            if ncmode in ("b", "both"):
+                b = sprinkle_nc(rng, b, 0.3)
         c = {"kw": kw, "a": a, "b": b, "edits": [], "rel": False}
+    c["sep"] = rng.random() < 0.4
     hi = max([k for k, _ in a] + [k for k, _ in c["b"]] + [W])
     c["rng"] = gen_ranges(rng, hi)
     return c
@@ -103,12 +130,22 @@ def gen_cases(rng, tier):
     n = 45 if tier == "quick" else 2000
     cases = []
     # fixed: identical maps, one edit deep inside a three-level tree, empty vs non-empty
-    a = [[i * 2, i] for i in range(300)]
-    cases.append({"kw": 450, "a": a, "b": apply_edits(a, [{"k": 301, "v": 7, "del": False}]), "edits": [{"k": 301, "v": 7, "del": False}], "rel": True,
-                  "rng": [[None, None], [288, 320], [304, 320], [0, 16], [320, 288]]})
-    cases.append({"kw": 300, "a": a[:80], "b": a[:80], "edits": [], "rel": True, "rng": [[None, None], [16, 64]]})
-    cases.append({"kw": 0, "a": [], "b": a[:5], "edits": [], "rel": False, "rng": [[None, None], [0, 16]]})
-    cases.append({"kw": 0, "a": a[:5], "b": [], "edits": [], "rel": False, "rng": [[None, None]]})
+    a = [[i * 2, 2 * i] for i in range(300)]
+    cases.append({"kw": 450, "a": a, "b": apply_edits(a, [{"k": 301, "v": 14, "del": False}]), "edits": [{"k": 301, "v": 14, "del": False}], "rel": True,
+                  "sep": False, "rng": [[None, None], [288, 320], [304, 320], [0, 16], [320, 288]]})
+    cases.append({"kw": 300, "a": a[:80], "b": a[:80], "edits": [], "rel": True, "sep": False, "rng": [[None, None], [16, 64]]})
+    cases.append({"kw": 0, "a": [], "b": a[:5], "edits": [], "rel": False, "sep": False, "rng": [[None, None], [0, 16]]})
+    cases.append({"kw": 0, "a": a[:5], "b": [], "edits": [], "rel": False, "sep": True, "rng": [[None, None]]})
+    # the same row stored canonically on one side and non-canonically (trailing NULL kept) on the other: not a change,
+    # through every entry point, with shared and with separately allocated (Equal) descriptors, next to one real change
+    small = [[1, 10], [2, 20], [3, 30], [20, 40]]
+    for sep in (False, True):
+        for (x, y) in ((small, [[1, 11], [2, 20], [3, 32], [20, 40]]), ([[1, 11], [2, 21], [3, 30], [20, 40]], small)):
+            cases.append({"kw": 0, "a": x, "b": y, "edits": [], "rel": False, "sep": sep, "rng": [[None, None], [0, 16], [16, 32]]})
+        eds = [{"k": 2, "v": 21, "del": False}, {"k": 3, "v": 34, "del": False}]
+        cases.append({"kw": 0, "a": small, "b": apply_edits(small, eds), "edits": eds, "rel": True, "sep": sep, "rng": [[None, None], [0, 16]]})
+        eds = [{"k": 150, "v": a[75][1] | 1, "del": False}]
+        cases.append({"kw": 450, "a": a[:200], "b": apply_edits(a[:200], eds), "edits": eds, "rel": True, "sep": sep, "rng": [[None, None], [144, 160]]})
     for i in range(n):
         cases.append(gen_case(rng, big=(i < 2)))
     return cases
@@ -185,6 +222,16 @@ def classify(case, out):
     if o is None or out.get("panic"):
         return ["panic"]
     t = ["related" if case["rel"] else "unrelated"]
+    da_, db_ = dict((k, v) for k, v in case["a"]), dict((k, v) for k, v in case["b"])
+    nc_one = any(k in db_ and da_[k] != db_[k] and da_[k] // 2 == db_[k] // 2 for k in da_)
+    if nc_one:
+        t.append("noncanonical-value-one-side")
+    if case.get("sep"):
+        t.append("separate-descriptors")
+    if nc_one and case.get("sep"):
+        t.append("noncanonical-and-separate-descriptors")
+    if any(v % 2 for _, v in case["a"]) or any(v % 2 for _, v in case["b"]):
+        t.append("noncanonical-present")
     da, db = _depth(o["ta"]), _depth(o["tb"])
     if da != db:
         t.append("height-diff")
@@ -253,7 +300,7 @@ def neighbours(case, rng):
         hi = max([k for k, _ in case["a"]] + [k for k, _ in case["b"]] + [W])
         c["rng"] = gen_ranges(rng, hi)
         if case["rel"]:
-            e2 = list(case["edits"]) + [{"k": rng.randrange(hi + W), "v": rng.randrange(1000), "del": rng.random() < 0.4}]
+            e2 = list(case["edits"]) + [{"k": rng.randrange(hi + W), "v": rng.randrange(2000), "del": rng.random() < 0.4}]
             c["edits"] = e2
             c["b"] = apply_edits(case["a"], e2)
         out.append(c)
